@@ -45,11 +45,11 @@ ASSUMPTIONS = [
     "binary operations between two *different* typed inputs (a + other, channel-wise cat with another batch) are outside the "
     "vocabulary: the statement does not say whose grid a mixed entry should carry; `other` is used for dim-0 cat/stack/append",
     "C19_aligned_partial covers the operation classes of `goodOp` (Proofs/Dispatch.lean; listed in the docstring of the "
-    "theorem, incl. the classes repaired in /repo by 31c6369, a040c96, e158d15, e37fd36); the classes with a `_refuted` "
-    "theorem and the former witnesses of the repaired defects are replayed on the implementation (stream witnesses); "
-    "negative dim literals, stack, tensor_split(int), expand/repeat/reshape/squeeze/unsqueeze, permute/transpose of "
-    "non-batch dims, padding, dim-0 and full reductions, index tuples with an ellipsis and collate are covered by "
-    "C19_demote (count/shape) + correspondence + oracle only",
+    "theorem, incl. every class repaired in /repo: 31c6369, a040c96, e158d15, e37fd36, 018b42a, 5463a8b, d25ad21, PENDING-F19); "
+    "no refutation is left, the former witnesses are replayed on the implementation as regression cases (stream witnesses); "
+    "still outside goodOp (C19_demote proves count/shape for them, provenance by correspondence + oracle only): negative or "
+    "batch-dim literals for torch.narrow/select/reductions/cat/split*, tensor_split(int), stack, expand/repeat/reshape/"
+    "squeeze/unsqueeze, padding, full reductions, index tuples with an ellipsis, from_images/collate/Image.batch()",
     "F-05 (ImageBatch.sample(one Grid) on N>1) is not a tensor operation of the C19 quantifier and is left to C04/C05",
 ]
 TRUSTED = [
@@ -260,7 +260,7 @@ def op_tokens(op) -> str:
     if n == "flip":
         return f"flip {clist(op['dims'])}"
     if n == "roll":
-        return f"roll {op['shift']} {op['dim']}"
+        return f"roll {clist(op['shifts'])} {'_' if op.get('dims') is None else clist(op['dims'])}"
     if n == "permute":
         return f"permute {clist(op['perm'])}"
     if n == "transpose":
@@ -315,7 +315,14 @@ def apply_op(op, cur, other):
         return cur.select(op["dim"], op["idx"])
     if n == "isel":
         idx = torch.tensor(op["idx"], dtype=torch.long)
-        return cur.index_select(op["dim"], idx) if op.get("call", "method") == "method" else torch.index_select(cur, op["dim"], idx)
+        call = op.get("call", "method")
+        if call == "method":
+            return cur.index_select(op["dim"], idx)
+        if call == "torch":
+            return torch.index_select(cur, op["dim"], idx)
+        if call == "kw":
+            return cur.index_select(dim=op["dim"], index=idx)
+        return torch.index_select(cur, dim=op["dim"], index=idx)
     if n in ("cat", "stack"):
         members = [cur if c == "c" else other for c in op["ops"]]
         if any(m is None for m in members):
@@ -338,9 +345,36 @@ def apply_op(op, cur, other):
         l = list(op["l"]) if op.get("container", "list") == "list" else tuple(op["l"])
         return cur.tensor_split(l, *pa, **kw) if op.get("call", "method") == "method" else torch.tensor_split(cur, l, *pa, **kw)
     if n == "flip":
-        return cur.flip(op["dims"]) if op.get("call", "method") == "method" else torch.flip(cur, op["dims"])
+        call = op.get("call", "method")
+        if call == "method":
+            return cur.flip(op["dims"])
+        if call == "varargs":
+            return cur.flip(*op["dims"])
+        if call == "tuple":
+            return cur.flip(tuple(op["dims"]))
+        if call == "torch":
+            return torch.flip(cur, op["dims"])
+        if call == "kw":
+            return cur.flip(dims=op["dims"])
+        return torch.flip(cur, dims=tuple(op["dims"]))
     if n == "roll":
-        return cur.roll(op["shift"], op["dim"]) if op.get("call", "method") == "method" else torch.roll(cur, op["shift"], op["dim"])
+        call = op.get("call", "method")
+        sh, ds = op["shifts"], op.get("dims")
+        if ds is None:
+            args, kw2 = (sh[0],), {}
+            if op.get("kw"):
+                args, kw2 = (), {"shifts": sh[0]}
+        else:
+            if op.get("scalar") and len(sh) == 1 and len(ds) == 1:
+                sh, ds = sh[0], ds[0]
+            else:
+                sh, ds = tuple(sh), tuple(ds)
+            args, kw2 = (sh, ds), {}
+            if op.get("kw"):
+                args, kw2 = (), {"shifts": sh, "dims": ds}
+            elif op.get("kw") is None and op.get("kwdims"):
+                args, kw2 = (sh,), {"dims": ds}
+        return cur.roll(*args, **kw2) if call == "method" else torch.roll(cur, *args, **kw2)
     if n == "permute":
         return cur.permute(*op["perm"])
     if n == "transpose":
@@ -708,6 +742,8 @@ def gen_op(rng: random.Random, cur, other) -> Optional[dict]:
     op: Dict[str, Any] = {"op": name}
     if name == "ew":
         op["fn"] = rng.choice(sorted(EW))
+        if op["fn"].endswith("_") and any(st == 0 and sz > 1 for st, sz in zip(cur.stride(), cur.shape)):
+            op["fn"] = "add1"   # torch refuses in-place writes to an expanded (self-overlapping) tensor
     elif name == "reduce":
         op["fn"] = rng.choice(["sum", "mean"])
         op["all"] = rng.random() < 0.15
@@ -749,7 +785,7 @@ def gen_op(rng: random.Random, cur, other) -> Optional[dict]:
             idx = [rng.randrange(n) for _ in range(n)]
         else:
             idx = [rng.randrange(n) for _ in range(rng.randint(0, n + 2))]
-        op.update(dim=d, idx=idx, call=rng.choice(["method", "torch"]))
+        op.update(dim=d, idx=idx, call=rng.choice(["method", "torch", "kw", "torchkw"]))
     elif name in ("cat", "stack"):
         r = rng.random()
         if other is not None and is_batch and r < 0.45:
@@ -802,9 +838,22 @@ def gen_op(rng: random.Random, cur, other) -> Optional[dict]:
             dims[0] = 0
             dims = list(dict.fromkeys(dims))
         op["dims"] = [d - nd if rng.random() < 0.2 else d for d in dims]
-        op["call"] = rng.choice(["method", "torch"])
+        op["call"] = rng.choice(["method", "varargs", "tuple", "torch", "kw", "torchkw"])
     elif name == "roll":
-        op.update(shift=rng.randint(-3, 3), dim=_dim(rng, nd, 0.5), call=rng.choice(["method", "torch"]))
+        r = rng.random()
+        if r < 0.2:
+            op.update(shifts=[rng.randint(-7, 7)], dims=None, kw=rng.random() < 0.3)
+        elif r < 0.75:
+            op.update(shifts=[rng.randint(-3, 3)], dims=[_dim(rng, nd, 0.5)], scalar=rng.random() < 0.7)
+        else:
+            k = rng.choice([2, 2, 3])
+            op.update(shifts=[rng.randint(-3, 3) for _ in range(k)], dims=[_dim(rng, nd, 0.4) for _ in range(k)])
+            if rng.random() < 0.05:
+                op["shifts"] = op["shifts"][:-1]
+        if op.get("dims") is not None:
+            op["kw"] = rng.choice([False, False, True, None])
+            op["kwdims"] = rng.random() < 0.5
+        op["call"] = rng.choice(["method", "torch"])
     elif name == "permute":
         perm = list(range(nd))
         r = rng.random()
@@ -1041,8 +1090,17 @@ def survey_ops(nd: int, n0: int, batch: bool = True) -> List[dict]:
             {"op": "unbind", "dimform": "d"}, {"op": "unbind", "dimform": "p", "dim": 1},
             {"op": "flip", "dims": [0]}, {"op": "flip", "dims": [-nd], "call": "torch"}, {"op": "flip", "dims": [last]},
             {"op": "flip", "dims": [1]}, {"op": "flip", "dims": [0, last]},
-            {"op": "roll", "shift": 1, "dim": 0}, {"op": "roll", "shift": -1, "dim": -nd, "call": "torch"},
-            {"op": "roll", "shift": n0, "dim": 0}, {"op": "roll", "shift": 1, "dim": last}, {"op": "roll", "shift": 1, "dim": 1},
+            {"op": "flip", "dims": [0], "call": "varargs"}, {"op": "flip", "dims": [-nd, last], "call": "kw"},
+            {"op": "flip", "dims": [0], "call": "torchkw"}, {"op": "flip", "dims": [1, 0], "call": "tuple"},
+            {"op": "roll", "shifts": [1], "dims": [0], "scalar": True}, {"op": "roll", "shifts": [-1], "dims": [-nd], "call": "torch"},
+            {"op": "roll", "shifts": [n0], "dims": [0], "scalar": True}, {"op": "roll", "shifts": [1], "dims": [last], "scalar": True},
+            {"op": "roll", "shifts": [1], "dims": [1]}, {"op": "roll", "shifts": [1, 2], "dims": [0, last], "kw": True},
+            {"op": "roll", "shifts": [1, 1], "dims": [0, -nd], "call": "torch"}, {"op": "roll", "shifts": [2], "dims": [0], "kw": None, "kwdims": True},
+            {"op": "roll", "shifts": [1], "dims": None}, {"op": "roll", "shifts": [-3], "dims": None, "call": "torch"},
+            {"op": "roll", "shifts": [7], "dims": None, "kw": True}, {"op": "roll", "shifts": [0], "dims": None},
+            {"op": "roll", "shifts": [1, 2], "dims": [0]},
+            {"op": "isel", "dim": 0, "idx": [n0 - 1, 0, 0], "call": "kw"}, {"op": "isel", "dim": -nd, "idx": list(reversed(range(n0))), "call": "torchkw"},
+            {"op": "isel", "dim": last, "idx": [1, 0], "call": "kw"},
             {"op": "permute", "perm": [1, 0] + list(range(2, nd))}, {"op": "permute", "perm": list(range(nd - 2)) + [last, last - 1]},
             {"op": "permute", "perm": list(range(nd))}, {"op": "transpose", "d0": 0, "d1": 1}, {"op": "transpose", "d0": 0, "d1": last},
             {"op": "transpose", "d0": last, "d1": last - 1}, {"op": "transpose", "d0": 1, "d1": 1},
@@ -1177,12 +1235,32 @@ _F1 = dict(_F3, n=1)
 WITNESSES = [
     # (name, case, expected finding key; None = must hold: witness of a defect repaired by a fix: commit in /repo,
     #  kept as a regression case — the positive theorem of Props/C19.lean covers its class)
-    ("flip_dim0", {"input": _B2, "other": None, "ops": [{"op": "flip", "dims": [0]}]}, "C19:torch.flip:dim0"),
-    ("roll_dim0", {"input": _B2, "other": None, "ops": [{"op": "roll", "shift": 1, "dim": 0}]}, "C19:torch.roll:dim0"),
+    ("flip_dim0", {"input": _B2, "other": None, "ops": [{"op": "flip", "dims": [0]}]}, None),   # C19:torch.flip:dim0 before PENDING-F19
+    ("roll_dim0", {"input": _B2, "other": None, "ops": [{"op": "roll", "shifts": [1], "dims": [0], "scalar": True}]}, None),   # C19:torch.roll:dim0 before PENDING-F19
     ("index_select_perm", {"input": _B2, "other": None, "ops": [{"op": "isel", "dim": 0, "idx": [1, 0]}]},
-     "C19:index_select:dim0-perm"),
+     None),   # C19:index_select:dim0-perm before PENDING-F19
     ("permute_batch_channel", {"input": dict(_B2, c=2), "other": None, "ops": [{"op": "transpose", "d0": 0, "d1": 1}]},
-     "C19:permute:batch-moved"),
+     None),   # C19:permute:batch-moved before PENDING-F19
+    ("roll_flattened", {"input": dict(_B2, c=2), "other": None, "ops": [{"op": "roll", "shifts": [3], "dims": None}]}, None),
+    ("transpose_spatial", {"input": _B2, "other": None, "ops": [{"op": "transpose", "d0": 2, "d1": 3}]}, None),
+    # empty batch (N = 0): `ndim == 0` skips the flip / roll / index_select branches, the empty grid list is kept
+    ("empty_index_select_channel", {"input": _B2, "other": None,
+                                    "ops": [_single(_sl(0, 0)), {"op": "isel", "dim": 1, "idx": [0]}]}, None),
+    ("empty_index_select_batch", {"input": _B2, "other": None,
+                                  "ops": [_single(_sl(0, 0)), {"op": "isel", "dim": 0, "idx": [], "call": "kw"}]}, None),
+    ("empty_flip", {"input": _B2, "other": None, "ops": [_single(_sl(0, 0)), {"op": "flip", "dims": [0]}]}, None),
+    ("empty_flip_spatial", {"input": _F2, "other": None,
+                            "ops": [_single(_sl(0, 0)), {"op": "flip", "dims": [2, -1], "call": "torchkw"}]}, None),
+    ("empty_roll", {"input": _B2, "other": None,
+                    "ops": [_single(_sl(0, 0)), {"op": "roll", "shifts": [1], "dims": [0], "scalar": True}]}, None),
+    ("empty_roll_flattened", {"input": _F2, "other": None,
+                              "ops": [_single(_sl(0, 0)), {"op": "roll", "shifts": [1], "dims": None}]}, None),
+    ("empty_transpose", {"input": _B2, "other": None, "ops": [_single(_sl(0, 0)), {"op": "transpose", "d0": 2, "d1": 3}]}, None),
+    ("flow_flip_kw", {"input": _F3, "other": None, "ops": [{"op": "flip", "dims": [0], "call": "torchkw"}]}, None),
+    ("flow_roll_multi", {"input": _F3, "other": None,
+                         "ops": [{"op": "roll", "shifts": [1, 2], "dims": [0, 3], "kw": True}]}, None),
+    ("flow_index_select_kw", {"input": _F3, "other": None,
+                              "ops": [{"op": "isel", "dim": -4, "idx": [2, 0, 1], "call": "kw"}]}, None),
     # repaired (31c6369, a040c96, e158d15, e37fd36, 018b42a, 5463a8b, d25ad21)
     ("narrow_method_negdim", {"input": _B2, "other": None, "ops": [{"op": "narrowm", "dim": -4, "start": 1, "len": 1}]}, None),
     ("narrow_method_negdim_spatial", {"input": _B2, "other": None, "ops": [{"op": "narrowm", "dim": -1, "start": 1, "len": 1}]}, None),
@@ -1230,7 +1308,9 @@ def op_class(op: dict, nd: int) -> str:
     if n == "flip":
         return "torch.flip:dim0" if any(d0(d) for d in op["dims"]) else "torch.flip:other-dim"
     if n == "roll":
-        return "torch.roll:" + dimpart()
+        if op.get("dims") is None:
+            return "torch.roll:flattened"
+        return "torch.roll:dim0" if any(d0(d) for d in op["dims"]) else "torch.roll:other-dim"
     if n == "isel":
         return "index_select:" + dimpart()
     if n == "narrowf":
@@ -1273,6 +1353,7 @@ GENERIC = ("ew", "reduce", "narrowf", "select", "isel", "cat", "stack", "split",
 NAMED = {
     ("torch.flip:dim0", "order"): "C19:torch.flip:dim0",
     ("torch.roll:dim0", "order"): "C19:torch.roll:dim0",
+    ("torch.roll:flattened", "mixed"): "C19:torch.roll:dim0",   # same finding: roll() without dims shifts data across entries
     ("index_select:dim0", "order"): "C19:index_select:dim0-perm",
     ("split:sections-list:dim0", "order"): "C19:split:sections-list",
     ("split_with_sizes:dim0", "order"): "C19:split_with_sizes:sections-list",
@@ -1428,8 +1509,8 @@ STREAMS = [
            doc="fixed table of single operations (every operation form of the vocabulary, all dim-argument forms, all index "
                "forms) x 10 inputs (ImageBatch/FlowFields N=1..4, 2-D/3-D, Image, FlowField): type, shape, grids, axes, provenance"),
     Stream("witnesses", gen_witnesses, impl_programs, line_programs, cmp_exact, exhaustive=True,
-           doc="the concrete witnesses of the *_refuted theorems replayed on the implementation, plus the former witnesses "
-               "of the defects repaired in /repo (regression cases; their classes are now in C19_aligned_partial)"),
+           doc="the former witnesses of the defects repaired in /repo (regression cases; their classes are now in "
+               "C19_aligned_partial / C19_demote) and further call forms of the repaired branches"),
     Stream("programs", gen_programs, impl_programs, line_programs, cmp_programs, nontrivial=nontrivial_program,
            doc="random programs (quick <=4, thorough <=8 operations) on typed inputs with distinct per-item grids; every "
                "intermediate result compared"),
